@@ -137,6 +137,20 @@ class EqVertex(Vertex):
         return hash(getattr(self, "key", None))
 
 
+class VNamed(Vertex):
+    """
+    The ordinary value-object recipe: __eq__ / __hash__ read an instance attribute (`name`, unique per vertex in
+    these workloads, so equality coincides with identity).  An instance that has not received its state yet - as
+    happens to objects on reference cycles while a pickle is being loaded - cannot be hashed.
+    """
+
+    def __eq__(self, other):
+        return isinstance(other, VNamed) and self.name == other.name
+
+    def __hash__(self):
+        return hash(self.name)
+
+
 class DSub(DirectedEdge):
     pass
 
@@ -355,7 +369,7 @@ EDGE_CLASSES = {
 SPEC_ONLY_EDGE_CLASSES = {"DuckLink": DuckLink, "OtherLink~": OtherLinkNamesake}
 SPEC_ONLY_VERTEX_CLASSES = {"Vertex~": VertexNamesake, "VSub~": VSubNamesake, "UnhashableVertex": UnhashableVertex,
                             "RankedVertex": RankedVertex, "VDirLess": VDirLess, "VRecord": VRecord,
-                            "ClusterVertex": ClusterVertex, "VBag": VBag}
+                            "ClusterVertex": ClusterVertex, "VBag": VBag, "VNamed": VNamed}
 LINK_CLASSES = dict(EDGE_CLASSES)
 LINK_CLASSES["MultiLink"] = MultiLink
 ALL_CLASSES = {}
